@@ -4,8 +4,17 @@
 quick/thorough: random histories over trees of <= 8 windows on small terminals: windows inside, partly outside and wholly
 outside their parents, hidden subtrees, every creation flag; create/close/show/hide/restack/move/resize/expose/scroll/
 terminal-resize interleaved with flushes.  --prop C01: well-behaved handlers (paint content), geometry changes followed by
-the exposes the property's proviso demands.  --prop C02: adversarial handlers drawing anywhere; every window draws with the
-foreground tag id+1 so that the writer of a cell can be identified on the grid.
+the exposes the property's proviso demands.  --prop C02: adversarial handlers drawing anywhere - erases, texts, characters,
+skips, clears, line segments (hline_at / vline_at), copyrect / moverect within the buffer, save / savepen / restore (balanced,
+left open, one restore too many), setpen with reverse video; every window draws with the foreground tag id+1 so that the
+writer of a cell can be identified on the grid.  Scenarios mixed in: a window with a border of line segments and a window
+behind it (parent or lower sibling) ruling lines through the border's rows and columns; a short text at the start of a row and
+the rest of the row pulled a few columns left over its end (the copy overwrites the start of the run it walks), then more
+drawing; a label under savepen / restore followed by a clear of everything.
+One history in twenty runs on the library's xterm driver (scroll oracle x; bytes interpreted by the VT model in the driver):
+1-4 lines of 65-140 columns, windows exactly 64 / 128 columns wide or starting at column 64 / 128, reverse-video pens, handlers
+that blank whole windows (the driver writes reverse-video blanks as spaces in slices of 64); the background colour is the
+writer tag there.
 exhaustive: every history of <= 4 operations from a fixed alphabet over a fixed tree of 3 windows, each followed by a flush.
 
 `scrollch w d r` is the compound step of Props.C01.scrollch_step_full: tickit_window_scroll_with_children, then the
@@ -106,10 +115,19 @@ def isect(a, b):
     return [t, l, bt - t, r - l] if t < bt and l < r else None
 
 
+XM = False      # the history runs on the xterm driver: the writer tag is the background colour
+
+
+def rv_tok():
+    return rng.choice(["x", "x", "x", "0", "1", "1"])
+
+
 def pen_tok(id_, null_ok=True):
     if C02:
-        bg = rng.choice(["x", "x", str(rng.randint(0, 7))])
+        bg = str(id_ + 1) if XM else rng.choice(["x", "x", str(rng.randint(0, 7))])
         b = rng.choice(["x", "x", "0", "1"])
+        if XM or rng.random() < 0.3:
+            return "pen=%d:%s:%s:%s" % (id_ + 1, bg, b, rv_tok())
         return "pen=%d:%s:%s" % (id_ + 1, bg, b)
     x = rng.random()
     if null_ok and x < 0.08:
@@ -117,6 +135,8 @@ def pen_tok(id_, null_ok=True):
     f = rng.choice(["x", str(rng.randint(0, 7)), str(id_ + 1)])
     bg = rng.choice(["x", str(rng.randint(0, 7))])
     b = rng.choice(["x", "x", "0", "1"])
+    if XM or rng.random() < 0.2:
+        return "pen=%s:%s:%s:%s" % (f, bg, b, rv_tok())
     return "pen=%s:%s:%s" % (f, bg, b)
 
 
@@ -157,44 +177,194 @@ def expose_instr(h, w):
     return "Z:%d:%d:%d:%d:%d" % (tgt, rng.randint(-1, max(0, n)), rng.randint(-1, max(0, k)), rng.randint(1, max(1, n)), rng.randint(1, max(1, k)))
 
 
+def abs_pos(h, w):
+    t, l = 0, 0
+    while w is not None and h.parent.get(w) is not None:
+        t += h.rect[w][0]; l += h.rect[w][1]; w = h.parent[w]
+    return t, l
+
+
+def setpen_instr(w):
+    bg = str(w + 1) if XM else rng.choice(["x", str(rng.randint(0, 7))])
+    if XM or rng.random() < 0.4:
+        return "N:%s:%s:%s" % (bg, rng.choice(["x", "0", "1"]), rv_tok())
+    return "N:%s:%s" % (bg, rng.choice(["x", "0", "1"]))
+
+
+def line_instr(h, w):
+    """hline_at / vline_at: inside, along the edges of, and far beyond the window."""
+    n, k = h.rect[w][2], h.rect[w][3]
+    stats["line_instrs"] = stats.get("line_instrs", 0) + 1
+    style = rng.choice([1, 1, 2, 3]); caps = rng.choice([0, 0, 1, 2, 3])
+    x = rng.random()
+    if x < 0.45:
+        line = rng.choice([0, n - 1, rng.randint(-1, n)])
+        c0 = rng.choice([0, 0, -3, rng.randint(-2, max(0, k - 1))]); c1 = rng.choice([k - 1, k - 1, k + 4, c0, c0 + rng.randint(0, k + 2)])
+        return "H:%d:%d:%d:%d:%d" % (line, c0, c1, style, caps)
+    if x < 0.9:
+        col = rng.choice([0, k - 1, rng.randint(-1, k)])
+        l0 = rng.choice([0, 0, -2, rng.randint(-1, max(0, n - 1))]); l1 = rng.choice([n - 1, n - 1, n + 3, l0, l0 + rng.randint(0, n + 1)])
+        return "I:%d:%d:%d:%d:%d" % (l0, l1, col, style, caps)
+    if x < 0.95:
+        return "h:%d:%d:%d:%d:%d" % (rng.randint(-1, 1), rng.randint(-2, 1), rng.randint(0, 6), style, caps)
+    return "i:%d:%d:%d:%d:%d" % (rng.randint(-1, 1), rng.randint(0, 4), rng.randint(-1, 2), style, caps)
+
+
+def box_instrs(n, k, style=1):
+    """A border of line segments around an n x k window."""
+    return ["H:0:0:%d:%d:0" % (k - 1, style), "H:%d:0:%d:%d:0" % (n - 1, k - 1, style),
+            "I:0:%d:0:%d:0" % (n - 1, style), "I:0:%d:%d:%d:0" % (n - 1, k - 1, style)]
+
+
+def copy_instr(h, w):
+    """copyrect / moverect: the source is taken in buffer coordinates (the library does not translate it), the
+    destination relative to the window; the harness drops calls outside WinRB.copyDomain."""
+    n, k = h.rect[w][2], h.rect[w][3]
+    tl, tc = h.rect[0][2], h.rect[0][3]
+    at, al = abs_pos(h, w)
+    stats["copy_instrs"] = stats.get("copy_instrs", 0) + 1
+    op = rng.choice(["Y", "Y", "M"])
+    if rng.random() < 0.7:
+        # within the window: rows/columns of the window that lie inside the buffer
+        r = rng.randint(0, max(0, n - 1)); c = rng.randint(0, max(0, k - 1))
+        sn = rng.randint(1, max(1, min(3, n - r))); sk = rng.randint(1, max(1, k - c))
+        st, sl = at + r, al + c
+        dt = r + rng.choice([0, 0, 0, -1, 1, -2, 2]); dl = c + rng.choice([0, -1, -1, -2, -3, 1, 2, 4])
+    else:
+        sn = rng.randint(1, max(1, min(3, tl))); sk = rng.randint(1, max(1, tc))
+        st = rng.randint(0, max(0, tl - sn)); sl = rng.randint(0, max(0, tc - sk))
+        dt = rng.randint(-2, n + 1); dl = rng.randint(-4, k + 2)
+    if rng.random() < 0.06:      # now and then outside the buffer (not called)
+        st += rng.choice([-1, tl]); sl += rng.choice([-1, 0, tc])
+    return "%s:%d:%d:%d:%d:%d:%d" % (op, dt, dl, st, sl, sn, sk)
+
+
+def pull_left_instrs(h, w):
+    """A short text at the start of a row, then the (still empty, or just painted) rest of the row pulled a few columns to
+    the left over the text's end: the copy moves a run leftwards over the start of that very run."""
+    n, k = h.rect[w][2], h.rect[w][3]
+    at, al = abs_pos(h, w)
+    r = rng.randint(0, max(0, n - 1))
+    tlen = rng.randint(1, 4)
+    txt = "".join(chr(rng.randint(65, 90)) for _ in range(tlen))
+    c0 = tlen + rng.randint(1, 3)
+    width = rng.randint(1, 6)
+    d = rng.randint(c0 - tlen + 1, c0) if rng.random() < 0.8 else rng.randint(1, c0)
+    stats["pull_left"] = stats.get("pull_left", 0) + 1
+    return ["T:%d:0:%s" % (r, hexs(txt)), "%s:%d:%d:%d:%d:1:%d" % (rng.choice(["Y", "Y", "M"]), r, c0 - d, at + r, al + c0, width)]
+
+
 def adversarial_prog(h, w):
     n, k = h.rect[w][2], h.rect[w][3]
     ins = []
     if rng.random() < 0.15:
         ins.append(expose_instr(h, w))
+    if XM and rng.random() < 0.5:
+        ins.append(setpen_instr(w))
     for _ in range(rng.randint(1, 5)):
         x = rng.random()
         far = lambda: rng.choice([-1000, -7, -2, -1, 0, 1, 2, n - 1, n, n + 1, k - 1, k, k + 1, 40, 1000])
-        if x < 0.15:
+        if x < 0.12:
             ins.append("P")
-        elif x < 0.30:
+        elif x < 0.24:
             ins.append("E:%d:%d:%d:%d" % (rng.randint(-3, 3), rng.randint(-3, 3), rng.randint(0, n + 4), rng.randint(0, k + 6)))
-        elif x < 0.38:
+        elif x < 0.31:
             ins.append("E:%d:%d:%d:%d" % (far(), far(), rng.choice([1, 3, 50, 2000]), rng.choice([1, 5, 80, 3000])))
-        elif x < 0.50:
+        elif x < 0.39:
             ins.append("e:%d:%d:%d:%d" % (rng.randint(-2, 1), rng.randint(-2, 1), rng.randint(-1, 3), rng.randint(-1, 3)))
-        elif x < 0.68:
+        elif x < 0.52:
             txt = rand_text(rng.choice([1, 2, 5, 12, 40]))
             if rng.random() < 0.5:
                 ins.append("T:%d:%d:%s" % (rng.randint(-2, n + 1), rng.randint(-6, k + 2), hexs(txt)))
             else:
                 ins.append("t:%d:%d:%s" % (rng.randint(-1, 2), rng.randint(-4, 2), hexs(txt)))
-        elif x < 0.78:
+        elif x < 0.59:
             if rng.random() < 0.5:
                 ins.append("C:%d:%d:%d" % (far() if rng.random() < 0.3 else rng.randint(-1, n), rng.randint(-1, k), rng.randint(97, 122)))
             else:
                 ins.append("c:%d:%d:%d" % (rng.randint(-1, 2), rng.randint(-1, 2), rng.randint(97, 122)))
-        elif x < 0.83:
+        elif x < 0.64:
             ins.append("K")
-        elif x < 0.88:
+        elif x < 0.68:
             ins.append("S:%d:%d:%d:%d" % (rng.randint(-2, n), rng.randint(-2, k), rng.randint(0, 3), rng.randint(0, 5)))
-        elif x < 0.93:
-            ins.append("N:%s:%s" % (rng.choice(["x", str(rng.randint(0, 7))]), rng.choice(["x", "0", "1"])))
-        elif x < 0.97:
+        elif x < 0.73:
+            ins.append(setpen_instr(w))
+        elif x < 0.76:
             ins.append("X:%d:%d" % (rng.randint(-3, 3), rng.randint(-5, 5)))
-        else:
+        elif x < 0.78:
             ins.append("L:%d:%d:%d:%d" % (rng.randint(-1, n), rng.randint(-1, k), rng.randint(0, n + 1), rng.randint(0, k + 1)))
+        elif x < 0.86:
+            ins.append(line_instr(h, w))
+        elif x < 0.92:
+            ins.append(copy_instr(h, w))
+        elif x < 0.94:
+            ins.extend(pull_left_instrs(h, w))
+        else:
+            # save / savepen ... restore around the next instructions (or left open, or a restore too many)
+            y = rng.random()
+            stats["save_instrs"] = stats.get("save_instrs", 0) + 1
+            if y < 0.8:
+                ins.append(rng.choice(["v", "v", "V"]))
+                if rng.random() < 0.6:
+                    ins.append(setpen_instr(w))
+                if rng.random() < 0.5:
+                    ins.append("T:%d:%d:%s" % (rng.randint(0, max(0, n - 1)), rng.randint(-1, k), hexs(rand_text(rng.choice([1, 2, 5])))))
+                if rng.random() < 0.85:
+                    ins.append("R")
+            else:
+                ins.append("R")
+    if rng.random() < 0.12:
+        # whatever came before, paint over everything afterwards: the library has to confine this
+        ins.append(rng.choice(["K", "E:-50:-50:200:400"]))
     return " ".join(ins)
+
+
+def boxed_prog(h, w):
+    """The window draws a border of line segments around itself (after blanking itself)."""
+    n, k = h.rect[w][2], h.rect[w][3]
+    stats["boxes"] = stats.get("boxes", 0) + 1
+    ins = ["E:0:0:%d:%d" % (n, k)] + box_instrs(max(n, 1), max(k, 1), rng.choice([1, 1, 2, 3]))
+    if rng.random() < 0.5:
+        ins.append("T:%d:1:%s" % (n // 2, hexs(rand_text(rng.choice([1, 2, 5])))))
+    return " ".join(ins)
+
+
+def ruled_prog(h, w):
+    """The window blanks itself and rules lines straight through everything in front of it: along the border rows and
+    columns of its children and of windows stacked over it."""
+    n, k = h.rect[w][2], h.rect[w][3]
+    at, al = abs_pos(h, w)
+    ins = [rng.choice(["P", "E:0:0:%d:%d" % (n, k), "K"])]
+    if rng.random() < 0.5:
+        ins.append(setpen_instr(w))
+    others = [v for v in h.live() if v != w and v != 0]
+    for _ in range(rng.randint(1, 4)):
+        style = rng.choice([1, 1, 2, 3])
+        if others and rng.random() < 0.85:
+            v = rng.choice(others)
+            vt, vl = abs_pos(h, v); vn, vk = h.rect[v][2], h.rect[v][3]
+            if rng.random() < 0.5:
+                ins.append("H:%d:%d:%d:%d:%d" % (vt - at + rng.choice([0, vn - 1]), -2, k + 2, style, rng.choice([0, 3])))
+            else:
+                ins.append("I:%d:%d:%d:%d:%d" % (-2, n + 2, vl - al + rng.choice([0, vk - 1]), style, rng.choice([0, 3])))
+        else:
+            ins.append(line_instr(h, w))
+    stats["ruled"] = stats.get("ruled", 0) + 1
+    return " ".join(ins)
+
+
+def wide_rect_in(pl, pc):
+    """xterm configuration: windows whose rows are exactly 64 / 128 columns wide, or that start at column 64 / 128 (cutting
+    the row of the window behind to that length): the driver blanks reverse-video runs in slices of 64."""
+    x = rng.random()
+    n = rng.randint(1, max(1, pl)); t = rng.randint(0, max(0, pl - n))
+    if x < 0.6:
+        k = rng.choice([w for w in (64, 64, 128) if w <= pc] or [max(1, pc)])
+        l = rng.choice([0, 0, rng.randint(0, max(0, pc - k))])
+    else:
+        l = rng.choice([c for c in (64, 64, 128) if c < pc] or [0])
+        k = rng.randint(1, max(1, pc - l))
+    return [t, l, n, k]
 
 
 def new_window(h, parent=None, rect=None, flags=None):
@@ -202,7 +372,7 @@ def new_window(h, parent=None, rect=None, flags=None):
         parent = rng.choice(h.live())
     pl, pc = h.rect[parent][2], h.rect[parent][3]
     if rect is None:
-        rect = rand_rect_in(pl, pc)
+        rect = wide_rect_in(pl, pc) if (XM and pc >= 64 and rng.random() < 0.6) else rand_rect_in(pl, pc)
     if flags is None:
         flags = ""
         if rng.random() < 0.12: flags += "h"; stats["hidden_created"] += 1
@@ -219,8 +389,14 @@ def new_window(h, parent=None, rect=None, flags=None):
             t += h.rect[p][0]; l += h.rect[p][1]; p = h.parent[p]
         rect = [t, l, rect[2], rect[3]]; parent = 0
     h.parent[id_] = parent; h.rect[id_] = rect; h.n += 1
-    if C02 and rng.random() < 0.85:
-        emit("beh %d %s" % (id_, adversarial_prog(h, id_)))
+    if C02 and XM and rng.random() < 0.4:
+        # blank the whole window in its own pen (far beyond its edges), perhaps a label
+        prog = ([setpen_instr(id_)] if rng.random() < 0.5 else []) + [rng.choice(["E:-1:-5:10:500", "K", "E:0:0:%d:%d" % (rect[2], rect[3])])]
+        if rng.random() < 0.5:
+            prog.append("T:%d:%d:%s" % (rng.randint(0, max(0, rect[2] - 1)), rng.randint(0, 5), hexs(rand_text(rng.choice([1, 2, 5])))))
+        emit("beh %d %s" % (id_, " ".join(prog)))
+    elif C02 and rng.random() < 0.85:
+        emit("beh %d %s" % (id_, boxed_prog(h, id_) if rng.random() < 0.12 else adversarial_prog(h, id_)))
     elif not C02 and rng.random() < 0.15:
         # well-behaved, but the handler also exposes: that damage is for the next flush
         emit("beh %d P %s" % (id_, " ".join(expose_instr(h, id_) for _ in range(rng.randint(1, 2)))))
@@ -228,24 +404,38 @@ def new_window(h, parent=None, rect=None, flags=None):
 
 
 def history(h_index, big):
+    global XM
     h = Hist()
     tl = rng.choice([4, 6, 8, 8, 10, 12]); tc = rng.choice([8, 10, 16, 16, 24, 30])
     mode = rng.choice(["a", "a", "a", "p", "r", "m"])     # m: the library's own mock terminal
+    XM = rng.random() < 0.05
+    if XM:
+        # the library's xterm driver, its bytes interpreted by the VT model: few lines, rows longer than 64 columns
+        mode = "x"; tl = rng.choice([1, 2, 3, 4]); tc = rng.choice([65, 66, 70, 80, 100, 129, 140])
     stats["scroll_modes"][mode] = stats["scroll_modes"].get(mode, 0) + 1
     emit("new %s %d %d %s %s" % (a.prop, tl, tc, mode, pen_tok(0, null_ok=False)))
     h.parent[0] = None; h.rect[0] = [0, 0, tl, tc]; h.n = 1
-    if C02 and rng.random() < 0.6:
+    if C02 and XM and rng.random() < 0.4:
+        emit("beh 0 %s" % rng.choice(["K", "E:-1:-5:10:500", "P"]))
+    elif C02 and rng.random() < 0.6:
         emit("beh 0 %s" % adversarial_prog(h, 0))
     elif not C02 and rng.random() < 0.1:
         emit("beh 0 P %s" % expose_instr(h, 0))
-    nwin = rng.choice([0, 1, 2, 3, 3, 4, 5, 7])
+    nwin = rng.choice([0, 1, 2, 3, 3] if XM else [0, 1, 2, 3, 3, 4, 5, 7])
     for _ in range(nwin):
         new_window(h)
         if rng.random() < 0.15:
             emit("flush"); stats["flushes"] += 1; h.pending.clear()
     stats["windows"][nwin] = stats["windows"].get(nwin, 0) + 1
+    if C02 and nwin and rng.random() < 0.2:
+        # a window with a border of line segments, and a window behind it that rules lines through it
+        v = rng.choice([i for i in h.live() if i != 0])
+        emit("beh %d %s" % (v, boxed_prog(h, v)))
+        behind = [h.parent[v]] + [i for i in h.live() if i != v and i != 0 and h.parent.get(i) == h.parent[v]]
+        u = rng.choice(behind)
+        emit("beh %d %s" % (u, ruled_prog(h, u)))
     emit("flush"); stats["flushes"] += 1
-    nops = rng.randint(3, 26 if big else 18)
+    nops = rng.randint(2, 8) if XM else rng.randint(3, 26 if big else 18)
     for _ in range(nops):
         live = h.live()
         nonroot = [w for w in live if w != 0]
@@ -324,12 +514,13 @@ def history(h_index, big):
             h.dead.update(sub)
         elif x < 0.96 and mode != "m":
             nl = max(1, tl + rng.choice([-3, -2, -1, 0, 1, 2, 3])); nc = max(1, tc + rng.choice([-7, -3, -1, 0, 1, 2, 5]))
+            if XM: nl = min(nl, 5)
             if C02 and "root_shrink" in UNFIXED and (nl < tl or nc < tc):
                 emit("flush"); stats["flushes"] += 1; h.pending.clear()    # (inert: repaired) no damage pending across a shrink
             emit("resize %d %d" % (nl, nc))
             tl, tc = nl, nc
             h.rect[0] = [0, 0, tl, tc]
-        elif x < 0.98 and mode != "m":
+        elif x < 0.98 and mode not in ("m", "x"):
             emit("scrollmode %s" % rng.choice(["a", "p", "r"]))
         elif C02 and w is not None:
             emit("beh %d %s" % (w, adversarial_prog(h, w)))
